@@ -237,31 +237,31 @@ Qed.
 Lemma all_true_suffix s0 v0 evs r : all_true s0 v0 (evs ++ r) -> all_true s0 v0 r.
 Proof. induction evs as [|e evs IH]; cbn [app]; auto. intros H. apply IH. eapply all_true_tail; eauto. Qed.
 
-Lemma coarse_all_true scripts started s0 v0 sched : 0 <= v0 -> all_true s0 v0 (trace (reach scripts started s0 v0 sched)).
+Lemma coarse_all_true scripts results started s0 v0 sched : 0 <= v0 -> all_true s0 v0 (trace (reach scripts results started s0 v0 sched)).
 Proof.
   intros Hv. unfold all_true, all_ok.
-  destruct (signal_wait_true_only_if_set_l scripts started s0 v0 sched Hv) as [-> _].
-  destruct (monitor_waits_le_sets_l scripts started s0 v0 sched Hv) as [-> _].
-  destruct (semaphore_conserved_l scripts started s0 v0 sched Hv) as [-> _].
-  rewrite (mutex_history_exclusive_l scripts started s0 v0 sched Hv), (timed_wait_false_only_after_timeout_l scripts started s0 v0 sched Hv),
-    (join_returns_result_after_finish_l scripts started s0 v0 sched Hv). reflexivity.
+  destruct (signal_wait_true_only_if_set_l scripts results started s0 v0 sched Hv) as [-> _].
+  destruct (monitor_waits_le_sets_l scripts results started s0 v0 sched Hv) as [-> _].
+  destruct (semaphore_conserved_l scripts results started s0 v0 sched Hv) as [-> _].
+  rewrite (mutex_history_exclusive_l scripts results started s0 v0 sched Hv), (timed_wait_false_only_after_timeout_l scripts results started s0 v0 sched Hv),
+    (join_returns_result_after_finish_l scripts results started s0 v0 sched Hv). reflexivity.
 Qed.
 
 (* the six history predicates hold of the history of EVERY fine-reachable state (quiescent or not) in which no
    thread has unlocked the monitor while another thread owned it *)
-Lemma fine_all_ok_l scripts started s0 v0 fsched : 0 <= v0 ->
-  let fw := freach scripts started s0 v0 fsched in
+Lemma fine_all_ok_l scripts results started s0 v0 fsched : 0 <= v0 ->
+  let fw := freach scripts results started s0 v0 fsched in
   foreign_unlock fw = false -> all_ok s0 v0 (trace (base fw)) = [true; true; true; true; true; true].
 Proof.
   intros Hv fw Hfu.
-  destruct (fine_completes_l scripts started s0 v0 fsched Hfu) as (moves & sched & _ & _ & _ & (evs & He) & _ & Ht).
+  destruct (fine_completes_l scripts results started s0 v0 fsched Hfu) as (moves & sched & _ & _ & _ & (evs & He) & _ & Ht).
   fold fw in He, Ht. apply (all_true_suffix s0 v0 evs). rewrite <- He. unfold all_true.
   rewrite <- (all_ok_tr_eq s0 v0 _ _ Hv Ht). now apply coarse_all_true.
 Qed.
 
 (* without the hypothesis the Monitor clause fails at fine granularity: one set(), two successful waits *)
 Lemma fine_monitor_race_witness :
-  let fw := freach race_scripts (fun _ => true) false 0 race_sched in
+  let fw := freach race_scripts res100 (fun _ => true) false 0 race_sched in
   foreign_unlock fw = true /\ mon_sets (trace (base fw)) = 1 /\ mon_waits (trace (base fw)) = 2 /\
   mon_ok (trace (base fw)) = false /\
   trace (base fw) = [EvRet 1%nat MonWait 1; EvRet 0%nat MonWait 1; EvRet 3%nat MonUnlock 0; EvExit 2%nat 102;
